@@ -117,6 +117,85 @@ static Json gen_c11(uint64_t seed, long i, std::vector<Format*> const& fmts)
     return p;
 }
 
+static Json gen_devspec(Rng& r, Format* f, bool for_write)
+{
+    Json d = Json::object();
+    d.set("dev", r.pick(f->devices));
+    d.set("bufsz", r.pick({-1, -1, 0, 1, 7, 64, 512, 4096}));
+    if (!for_write)
+    {
+        unsigned sk = (unsigned)r.below(10);
+        d.set("sched", sk < 5 ? "full" : sk < 7 ? "one" : sk < 8 ? "half" : "pat");
+        if (sk >= 8) { Json pat = Json::array(); int n = (int)r.range(1, 4); for (int k = 0; k < n; ++k) pat.push((int)r.pick({1, 2, 3, 5, 7, 13, 64, 1000})); d.set("pat", pat); }
+        d.set("showmany", r.pick({0, 0, 1, -1}));
+    }
+    return d;
+}
+
+// ------------------------------------------------------------------------------ C12 plans
+static Json gen_c12(uint64_t seed, long i, std::vector<Format*> const& fmts)
+{
+    Rng r(mix(seed ^ 0xC12, (uint64_t)i));
+    std::vector<Format*> wf;
+    for (auto f : fmts) if (!f->write_types.empty() && f->roundtrip) wf.push_back(f);
+    Json p = Json::object();
+    if (wf.empty()) return p;
+    Format* f = wf[r.below(wf.size())];
+    p.set("engine", "iosim"); p.set("mode", "c12"); p.set("index", (long long)i);
+    p.set("fmt", f->name); p.set("variant", r.pick(f->write_types));
+    int w = (int)(r.chance(2, 3) ? r.range(1, 17) : r.range(1, 40)), h = (int)(r.chance(2, 3) ? r.range(1, 9) : r.range(1, 40));
+    if (f->name == "tiff" && r.chance(1, 3)) { w = (int)r.pick({15, 16, 17, 31, 32, 33}); h = (int)r.pick({1, 15, 16, 17, 33}); }
+    p.set("w", w); p.set("h", h); p.set("cseed", (long long)r.below(1u << 30));
+    p.set("content", f->name == "jpeg" ? (int)r.pick({1, 3}) : (int)r.pick({0, 0, 0, 1, 2}));
+    p.set("org", (int)r.pick({0, 0, 1, 1, 2, 3, 4}));
+    if (r.chance(1, 3)) p.set("planar", 1);
+    p.set("ox", (int)r.range(1, 9)); p.set("oy", (int)r.range(0, 3));
+    p.set("align", r.pick({0, 0, 4, 8, 16}));
+    p.set("wdev", gen_devspec(r, f, true));
+    p.set("rdev", gen_devspec(r, f, false));
+    Json opts = Json::array();
+    for (auto const& o : f->write_options) if (r.chance(1, 3)) opts.push(o);
+    p.set("opts", opts);
+    p.set("ops", Json::array());
+    return p;
+}
+
+// ------------------------------------------------------------------------------ C13 plans
+static Json gen_c13(uint64_t seed, long i, std::vector<Format*> const& fmts)
+{
+    Rng r(mix(seed ^ 0xC13, (uint64_t)i));
+    std::vector<Format*> pf;
+    for (auto f : fmts) if (f->paths) pf.push_back(f);
+    Json p = Json::object();
+    if (pf.empty()) return p;
+    Format* f = pf[r.below(pf.size())];
+    Variant const& v = f->variants[r.below(f->variants.size())];
+    p.set("engine", "iosim"); p.set("mode", "c13"); p.set("index", (long long)i);
+    p.set("fmt", f->name); p.set("variant", v.name);
+    int w = (int)(r.chance(3, 4) ? r.range(1, 8) : r.range(1, 20)), h = (int)(r.chance(3, 4) ? r.range(1, 6) : r.range(1, 20));
+    if (f->name == "tiff" && r.chance(1, 4)) { w = (int)r.pick({15, 16, 17, 33}); h = (int)r.pick({2, 16, 17}); }
+    p.set("w", w); p.set("h", h); p.set("cseed", (long long)r.below(1u << 30));
+    Json ops = Json::array();
+    int n = (int)r.range(3, 7);
+    for (int k = 0; k < n; ++k)
+    {
+        Json o = gen_devspec(r, f, false);
+        unsigned pk = (unsigned)r.below(100);
+        if (pk < 30) { o.set("p", "sub"); o.set("x", (int)r.below(20)); o.set("y", (int)r.below(20)); o.set("w", (int)r.below(20)); o.set("h", (int)r.below(20)); if (r.chance(1, 3)) o.set("view", 1); }
+        else if (pk < 42) o.set("p", "dev");
+        else if (pk < 48) o.set("p", "info");
+        else if (pk < 58) o.set("p", "view");
+        else if (pk < 66) { o.set("p", "small"); o.set("dw", (int)r.below(4)); o.set("dh", (int)r.below(4)); }
+        else if (pk < 76 && f->has_scanline) o.set("p", "scan");
+        else if (pk < 84 && f->has_any) o.set("p", "any");
+        else { o.set("p", r.chance(2, 3) ? "rci" : "rcv"); o.set("type", r.pick(f->convert_types)); }
+        if (!o.has("p")) o.set("p", "dev");
+        ops.push(o);
+    }
+    p.set("ops", ops);
+    return p;
+}
+
 // all truncation points of a list of base files: index -> (base, n)
 struct TruncBase { Format* f; Variant v; int w, h; Bytes bytes; };
 static std::vector<TruncBase> trunc_bases(uint64_t seed, std::vector<Format*> const& fmts, int per_variant)
@@ -310,6 +389,8 @@ int main(int argc, char** argv)
         Json p;
         if (trunc_mode) p = gen_trunc(seed, i, bases, mode == "truncall");
         else if (mode == "c11") p = gen_c11(seed, i, fmts);
+        else if (mode == "c12") p = gen_c12(seed, i, fmts);
+        else if (mode == "c13") p = gen_c13(seed, i, fmts);
         disk() = nullptr;
         gen_disk.chans.clear();
         return p;
